@@ -25,6 +25,7 @@ const (
 // tracker mirrors IoSys.disc_sys_step so that most histories are disciplined
 type trk struct {
 	open, stale bool
+	iter        bool // a lines iterator was obtained on this handle (it stays usable for "next")
 	last        int
 	rd, wr      bool
 }
@@ -312,8 +313,11 @@ func (g *gen) note(o Op) {
 		return
 	}
 	switch o.T {
-	case "read", "lines":
+	case "read", "lines", "next":
 		t.last, t.stale = lRead, false
+		if o.T == "lines" && t.rd {
+			t.iter = true
+		}
 	case "write":
 		t.last, t.stale = lWrite, false
 		for i := range g.ts {
@@ -364,7 +368,14 @@ func (g *gen) sync(i int) {
 func (g *gen) handleOp() {
 	t := g.ts[g.cur]
 	var o Op
-	kind := g.r.Pick(30, 6, 26, 18, 6, 5, 4)
+	wNext := 0
+	if t.iter {
+		wNext = 7
+		if !t.open {
+			wNext = 30 // a step of an iterator made before the close
+		}
+	}
+	kind := g.r.Pick(30, 9, 26, 18, 6, 5, 5, wNext)
 	// mostly ops the mode allows
 	if !g.r.Chance(8) {
 		if !t.rd && (kind == 0 || kind == 1) {
@@ -378,7 +389,10 @@ func (g *gen) handleOp() {
 	case 0:
 		o = g.readOp()
 	case 1:
-		o = Op{T: "lines", H: g.cur, K: []int{1, 2, 3, 5, 64}[g.r.Intn(5)]}
+		o = Op{T: "lines", H: g.cur, K: []int{0, 0, 1, 1, 2, 3, 5, 64}[g.r.Intn(8)]}
+		if t.open && t.rd && g.r.Chance(30) {
+			o.Via = "io"
+		}
 	case 2:
 		o = g.writeOp()
 	case 3:
@@ -387,12 +401,17 @@ func (g *gen) handleOp() {
 		o = Op{T: "flush", H: g.cur}
 	case 5:
 		o = g.setvbufOp()
-	default:
+	case 6:
 		o = Op{T: "close", H: g.cur}
+		if g.r.Chance(30) {
+			o.Via = "io"
+		}
+	default:
+		o = Op{T: "next", H: g.cur, K: []int{1, 1, 2, 3, 64}[g.r.Intn(5)]}
 	}
 	if g.disc && t.open {
 		switch o.T {
-		case "read", "lines":
+		case "read", "lines", "next":
 			if t.last == lWrite {
 				g.separate()
 			}
@@ -406,6 +425,10 @@ func (g *gen) handleOp() {
 		}
 	}
 	g.push(o)
+	if o.T == "close" && t.open && t.iter && g.r.Chance(60) {
+		// the iterator obtained before this close is called again
+		g.push(Op{T: "next", H: g.cur, K: []int{1, 2, 64}[g.r.Intn(3)]})
+	}
 }
 
 func (g *gen) openOp() {
@@ -480,6 +503,11 @@ func (g *gen) history(maxOps int) Input {
 	for i, t := range g.ts {
 		if t.open {
 			g.push(Op{T: "close", H: i})
+		}
+	}
+	for i, t := range g.ts {
+		if t.iter && r.Chance(50) {
+			g.push(Op{T: "next", H: i, K: []int{1, 2, 64}[r.Intn(3)]})
 		}
 	}
 	g.emit(Op{T: "snap"})
